@@ -64,6 +64,9 @@ MUTANTS = [
      "row_min\n    return data, header",
      "    header['NAXIS2'] = row_max-row_min\n    header['CRPIX2'] -= "
      "row_max\n    return data, header", "C20-R4"),
+    ("4-d plane indices swapped (seed C20c)", "AegeanTools/fits_tools.py",
+     "            data = a[hdu_index].section[0, cube_index,",
+     "            data = a[hdu_index].section[cube_index, 0,", "C20-R5"),
 ]
 TWINS = [
     ("explicit floor division helper", "AegeanTools/fits_tools.py",
@@ -346,6 +349,7 @@ def run(ctx):
         ctx.check("C20-R4", fi, "returned data " + norm(d, 60), ok,
                   "the returned data is not the [%s:%s] row slice" % (lo, hi),
                   node=s)
+    r5_planes(ctx, prog)
 
 
 def _sliced_by(fnode, e, lo, hi, depth=0):
@@ -373,3 +377,39 @@ def _sliced_by(fnode, e, lo, hi, depth=0):
         return bool(defs) and all(_sliced_by(fnode, d.value, lo, hi,
                                              depth + 1) for d in defs)
     return False
+
+
+def r5_planes(ctx, prog, rule="C20-R5"):
+    """which plane of a cube is read: FITS axes (NAXIS1..4) = numpy axes
+    (x, y, freq, stokes) reversed -> [stokes=0, cube_index, rows, cols]"""
+    ctx.rule(rule, "plane addressing: every hdu.section[...] read in the "
+             "package selects a 3-d cube plane as [cube_index, rows, cols] "
+             "and a 4-d one as [0, cube_index, rows, cols] (numpy axes are "
+             "the FITS axes reversed; the leading, degenerate Stokes axis is "
+             "taken at 0) -- in load_image_band and in its siblings")
+    n = 0
+    for q, fi in sorted(prog.functions.items()):
+        for x in walk_no_nested(fi.node):
+            if not (isinstance(x, ast.Subscript) and
+                    isinstance(x.value, ast.Attribute) and
+                    x.value.attr == "section" and
+                    isinstance(x.slice, ast.Tuple)):
+                continue
+            els = x.slice.elts
+            lead = els[:-2]
+            if len(els) == 2:
+                continue
+            n += 1
+            txt = [norm(e) for e in lead]
+            cube = [p_ for p_ in fi.params if "cube" in p_]
+            # the enclosing function of a nested worker may own the name
+            cname = cube[0] if cube else "cube_index"
+            want = [cname] if len(lead) == 1 else ["0", cname] \
+                if len(lead) == 2 else None
+            ctx.check(rule, fi, "plane indices %s of %s" %
+                      (txt, norm(x, 60)), want is not None and txt == want,
+                      "a %d-d image must be read as %s; found %s: the rows of "
+                      "a different plane are returned (or an IndexError for "
+                      "a degenerate leading axis)" %
+                      (len(els), want, txt), node=x)
+    ctx.floor(rule, n, 4, "3-d / 4-d section reads in the package")
